@@ -405,7 +405,7 @@ pub fn c05(ctx: &mut Ctx) {
 
 fn alt_indent(s: &str) -> String {
     let d = dw(s);
-    if s.is_empty() { String::new() } else if d == 0 { "\u{2060}".to_string() } else { "#".repeat(d) }
+    if s.is_empty() { String::new() } else if d == 0 { "\u{1b}[1m".to_string() /* width 0 under both feature sets */ } else { "#".repeat(d) }
 }
 
 pub fn c08_oracle(ctx: &mut Ctx, t: &str, o: &Opt, lines: &Option<Vec<LineOut>>) {
